@@ -151,6 +151,27 @@ CHECKS = {
         design_ref="6.10",
         note=LEVEL_NOTE_COMMON + " The network simplex as an algorithm (pivoting, spanning-tree surgery, termination) is validated per output, not verified; continuity of the LP value in the marginals is not proved.",
     ),
+    "C20": dict(
+        technique="Coq proof (rejection sampling returns distinct samples whenever it returns and can never return when more samples are requested than the pool holds; bridging every pair of components connects the graph; sound spanning-tree and symmetry certificates) + exact correspondence of utils.rejection_sample with the extracted model + connect_graph run in a worker process under a per-call watchdog with the extracted certificates deciding symmetry and connectedness of every result",
+        text=("Theorems C20_rejection_sample_distinct / C20_rejection_sample_needs_pool (for every generator state and every fuel), "
+              "C20_bridging_every_pair_connects, C20_connectivity_certificate_sound, C20_symmetry_check_sound (coq/props/C20.v). Every run: "
+              "rejection_sample compared value-for-value with the extracted model; connect_graph executed on generated multi-component "
+              "indexes (component sizes below, at and above search_size; 10 metrics with and without surrogate; tree_init on/off; "
+              "connect -> update -> connect histories); a call that does not return is killed and reported with its input; results are "
+              "checked for containment of the input, cross-component placement and the float64 reference distance of every added edge."),
+        design_ref="6.20",
+        note=LEVEL_NOTE_COMMON + " Termination of the alternating restricted searches is observed under the watchdog, not proved; the search closure itself is not modelled.",
+    ),
+    "C17": dict(
+        technique="Coq proof over a hand-written ownership (alias) model of the API operations: no history over any input configuration writes a caller buffer; the model's alias rules are checked against the implementation after every operation of generated histories (np.shares_memory vs the extracted model's alias bit; byte hashes of every caller array before/after)",
+        text=("Theorems C17_no_caller_write (all histories, all configurations dtype x layout x dense/CSR x sorted/unsorted x metric class), "
+              "C17_aliased_input_is_copied_before_normalising, refutations of the pinned in-place CSR sort (coq/props/C17.v). Every run: "
+              "histories construct -> {prepare, query, update, compress, pickle}* with fresh caller arrays of random configuration; after each "
+              "operation every caller array (data, CSR triplets, query, xs_updated, xs_fresh, init_graph, init_dist) is re-hashed and the "
+              "observed aliasing of index._raw_data is compared with the model; PyNNDescentTransformer fit/transform/fit_transform likewise."),
+        design_ref="6.17",
+        note=LEVEL_NOTE_COMMON + " The model is hand-written (not regenerated): the alias rules of sklearn check_array/normalize and numpy astype/fancy indexing are assumptions validated by the correspondence stream; numba kernels are covered only by the hash probes.",
+    ),
 }
 
 REASON_PENDING = "check not built yet in this round (design in DESIGN.md section 6; no claim is made until the check exists)"
